@@ -402,65 +402,74 @@ def _len_unit(fn, t):
     return None
 
 
+def unit_tags(fn):
+    """local -> unit of the length it holds (tags flow through copies, casts and +/- constants)"""
+    tag = {}
+    conflict = set()
+
+    def settag(l, u):
+        if u is None or l in conflict:
+            return False
+        if l in tag and tag[l] != u:
+            conflict.add(l)
+            tag.pop(l)
+            return True
+        if l not in tag:
+            tag[l] = u
+            return True
+        return False
+
+    for bi in fn.reachable():
+        t = fn.blocks[bi]['term']
+        if t['k'] == 'call' and not t['dest']['p']:
+            settag(t['dest']['l'], _len_unit(fn, t))
+    if not tag:
+        return tag
+    changed = True
+    rounds = 0
+    while changed and rounds < 20:
+        changed = False
+        rounds += 1
+        for bi in fn.reachable():
+            for s in fn.blocks[bi]['stmts']:
+                if s['k'] != 'assign' or s['lhs']['p']:
+                    continue
+                rv = s['rv']
+                u = None
+                if rv['k'] in ('use', 'cast'):
+                    p = op_place(rv['a'])
+                    if p is not None:
+                        u = tag.get(p['l']) if not p['p'] or p['p'] == [{'f': 0, 'n': '0'}] else None
+                        if p['p'] and not u:
+                            # `.0` of a checked-arithmetic pair
+                            if len(p['p']) == 1 and 'f' in p['p'][0] and p['p'][0].get('f') == 0:
+                                u = tag.get(p['l'])
+                elif rv['k'] == 'binop' and rv['op'].replace('WithOverflow', '') in ('Add', 'Sub'):
+                    pa, pb = op_place(rv['a']), op_place(rv['b'])
+                    ca, cb = op_const(rv['a']), op_const(rv['b'])
+                    if pa is not None and not pa['p'] and cb is not None:
+                        u = tag.get(pa['l'])
+                    elif pb is not None and not pb['p'] and ca is not None and rv['op'].startswith('Add'):
+                        u = tag.get(pb['l'])
+                if settag(s['lhs']['l'], u):
+                    changed = True
+    return tag
+
+
 def length_units(ctx, rep):
     """N8: a name exists in three encodings (UTF-8 in the API, UTF-16 on disk, chars in between); a count in one unit
     compared with (or added to / subtracted from) a count in another is meaningless for non-ASCII names.  Tags flow
     through copies, casts and +/- constants only, so a tagged value *is* such a count."""
     facts = ctx.facts
-    n = 0
+    n = nb = 0
+    part = facts.consts.get('fatfs::dir_entry::LFN_PART_LEN', {}).get('val')
     for fn in facts.fns.values():
         is_control = fn.crate == 'vf_witness' and '::controls::control_n8' in fn.name
         if fn.crate != 'fatfs' and not is_control:
             continue
-        tag = {}
-        conflict = set()
-
-        def settag(l, u):
-            if u is None or l in conflict:
-                return False
-            if l in tag and tag[l] != u:
-                conflict.add(l)
-                tag.pop(l)
-                return True
-            if l not in tag:
-                tag[l] = u
-                return True
-            return False
-
-        for bi in fn.reachable():
-            t = fn.blocks[bi]['term']
-            if t['k'] == 'call' and not t['dest']['p']:
-                settag(t['dest']['l'], _len_unit(fn, t))
+        tag = unit_tags(fn)
         if not tag:
             continue
-        changed = True
-        rounds = 0
-        while changed and rounds < 20:
-            changed = False
-            rounds += 1
-            for bi in fn.reachable():
-                for s in fn.blocks[bi]['stmts']:
-                    if s['k'] != 'assign' or s['lhs']['p']:
-                        continue
-                    rv = s['rv']
-                    u = None
-                    if rv['k'] in ('use', 'cast'):
-                        p = op_place(rv['a'])
-                        if p is not None:
-                            u = tag.get(p['l']) if not p['p'] or p['p'] == [{'f': 0, 'n': '0'}] else None
-                            if p['p'] and not u:
-                                # `.0` of a checked-arithmetic pair
-                                if len(p['p']) == 1 and 'f' in p['p'][0] and p['p'][0].get('f') == 0:
-                                    u = tag.get(p['l'])
-                    elif rv['k'] == 'binop' and rv['op'].replace('WithOverflow', '') in ('Add', 'Sub'):
-                        pa, pb = op_place(rv['a']), op_place(rv['b'])
-                        ca, cb = op_const(rv['a']), op_const(rv['b'])
-                        if pa is not None and not pa['p'] and cb is not None:
-                            u = tag.get(pa['l'])
-                        elif pb is not None and not pb['p'] and ca is not None and rv['op'].startswith('Add'):
-                            u = tag.get(pb['l'])
-                    if settag(s['lhs']['l'], u):
-                        changed = True
         for bi in fn.reachable():
             for s in fn.blocks[bi]['stmts']:
                 if s['k'] != 'assign' or s['rv']['k'] != 'binop':
@@ -487,7 +496,31 @@ def length_units(ctx, rep):
                                   '%s combines a length in %s with a length in %s (`%s`): the two only agree for ASCII names, so '
                                   'a name with a non-ASCII character is treated differently from how it was stored' %
                                   (fn.name, ua, ub, s['span']['snip'][:80]))
+        # N8b: a long-name slot holds LFN_PART_LEN UTF-16 units, so a count that is divided by (rounded up to, multiplied
+        # from) that constant must be a count of UTF-16 units
+        if part is None:
+            continue
+        for bi in fn.reachable():
+            for s in fn.blocks[bi]['stmts']:
+                if s['k'] != 'assign' or s['rv']['k'] != 'binop' or s['rv']['op'] not in ('Div', 'Rem'):
+                    continue
+                pa, cb = op_place(s['rv']['a']), op_const(s['rv']['b'])
+                if pa is None or pa['p'] or cb is None or cb.get('val') != part or tag.get(pa['l']) is None:
+                    continue
+                ua = tag[pa['l']]
+                ok = ua == 'utf16-units'
+                if is_control:
+                    continue
+                nb += 1
+                rep.oblige('N8b', '%s|bb%d' % (fn.name, bi), ok=ok, nontrivial=True,
+                           sample={'fn': fn.name, 'at': fn.loc(s['span']), 'unit': ua})
+                if not ok:
+                    rep.violation('N8b', vkey('N8b', fn.name, 'slots', s['span']['snip']), fn.loc(s['span']),
+                                  '%s derives a number of long-name slots from a length in %s (`%s`): a slot holds %d UTF-16 units, '
+                                  'so the count is wrong for every name with a non-ASCII character' %
+                                  (fn.name, ua, s['span']['snip'][:80], part))
     rep.counts['N8.pairs'] = n
+    rep.counts['N8b.sites'] = nb
     rep.oblige('N8.scan', 'fatfs', ok=True)
 
 
@@ -547,3 +580,240 @@ _run_n8 = run
 def run(ctx, rep):
     _run_n8(ctx, rep)
     fold_not_truncated(ctx, rep)
+
+
+# ---------------------------------------------------------------------------------------------
+# N9  one name per operation: the string that is validated, looked up for existence, turned into the 8.3 alias and stored
+#     in the long-name slots is the same string
+
+def _single_defs(fn):
+    defs, multi = {}, set()
+    for bi in fn.reachable():
+        for s in fn.blocks[bi]['stmts']:
+            if s['k'] == 'assign' and not s['lhs']['p']:
+                l = s['lhs']['l']
+                if l in defs:
+                    multi.add(l)
+                defs[l] = ('stmt', s['rv'])
+        t = fn.blocks[bi]['term']
+        if t['k'] == 'call' and not t['dest']['p']:
+            l = t['dest']['l']
+            if l in defs:
+                multi.add(l)
+            defs[l] = ('call', t)
+    for l in multi:
+        defs.pop(l)
+    return defs
+
+
+def _identity_param(facts, callee, cache, depth=0):
+    """index (0-based) of the parameter a function hands back unchanged as its (Ok) result, or None"""
+    if callee in cache:
+        return cache[callee]
+    cache[callee] = None
+    fn = facts.fns.get(callee)
+    if fn is None or depth > 3:
+        return None
+    defs = _single_defs(fn)
+    roots = set()
+    for bi in fn.reachable():
+        for s in fn.blocks[bi]['stmts']:
+            if s['k'] != 'assign' or s['lhs']['l'] != 0:
+                continue
+            rv = s['rv']
+            if rv['k'] == 'agg' and rv.get('ak') == 'adt' and rv.get('variant') in ('Err', 'None'):
+                continue
+            if rv['k'] == 'agg' and rv.get('ak') == 'adt' and rv.get('variant') in ('Ok', 'Some') and len(rv['ops']) == 1:
+                roots.add(_name_root(facts, fn, defs, rv['ops'][0], cache, depth + 1))
+            elif rv['k'] == 'use':
+                roots.add(_name_root(facts, fn, defs, rv['a'], cache, depth + 1))
+            else:
+                roots.add(None)
+        t = fn.blocks[bi]['term']
+        if t['k'] == 'call' and t['dest']['l'] == 0 and not (t.get('callee') or '').endswith('FromResidual::from_residual'):
+            roots.add(None)
+    if len(roots) == 1:
+        r = next(iter(roots))
+        if r is not None and r[0] == 'param':
+            cache[callee] = r[1] - 1
+    return cache[callee]
+
+
+def _name_root(facts, fn, defs, o, cache, depth=0):
+    """('param', i) / ('local', l): where a string operand comes from, through copies, reborrows, `?` and functions that
+    return their argument unchanged"""
+    p = op_place(o)
+    if p is None:
+        return None
+    l = p['l']
+    for _ in range(40):
+        if 1 <= l <= fn.argc:
+            return ('param', l)
+        d = defs.get(l)
+        if d is None:
+            return ('local', l)
+        if d[0] == 'stmt':
+            rv = d[1]
+            q = None
+            if rv['k'] in ('use', 'cast'):
+                q = op_place(rv['a'])
+                if q is None and op_const(rv['a']) is not None:
+                    return ('const', l)
+            elif rv['k'] == 'ref':
+                q = rv['p']
+            if q is None:
+                return ('local', l)
+            proj = [e for e in q['p'] if 'deref' not in e and e != {'deref': True}]
+            proj = [e for e in proj if not (isinstance(e, dict) and list(e.keys()) == ['deref'])]
+            if proj:
+                # payload of `?`: (x as Continue).0 / (x as Ok).0 where x is the result of an identity function
+                src = defs.get(q['l'])
+                names = [e.get('n') for e in proj if 'f' in e]
+                if src is not None and src[0] == 'call' and names == ['0']:
+                    t = src[1]
+                    callee = t.get('callee') or ''
+                    if callee.endswith('Try::branch'):
+                        inner = op_place(t['args'][0])
+                        src2 = defs.get(inner['l']) if inner is not None and not inner['p'] else None
+                        if src2 is not None and src2[0] == 'call':
+                            t = src2[1]
+                            callee = t.get('callee') or ''
+                        else:
+                            return ('local', l)
+                    ip = _identity_param(facts, callee, cache, depth + 1)
+                    if ip is not None and ip < len(t['args']):
+                        q2 = op_place(t['args'][ip])
+                        if q2 is None:
+                            return ('local', l)
+                        l = q2['l']
+                        continue
+                return ('local', l)
+            l = q['l']
+            continue
+        t = d[1]
+        ip = _identity_param(facts, t.get('callee') or '', cache, depth + 1)
+        if ip is not None and ip < len(t['args']):
+            q2 = op_place(t['args'][ip])
+            if q2 is None:
+                return ('local', l)
+            l = q2['l']
+            continue
+        return ('local', l)
+    return ('local', l)
+
+
+NAME_SINKS = (('::Dir::encode_lfn_utf16', 0, 'is stored in the long-name slots'),
+              ('::ShortNameGenerator::new', 0, 'is turned into the 8.3 alias'),
+              ('::Dir::find_entry', 1, 'is looked up for existence'))
+CHECK_EXIST = 'fatfs::dir::Dir::check_for_existence'
+WRITE_ENTRY = 'fatfs::dir::Dir::write_entry'
+
+
+def one_name(ctx, rep):
+    facts = ctx.facts
+    cache = {}
+    n = 0
+    for fname in (CHECK_EXIST, WRITE_ENTRY):
+        fn = facts.fns.get(fname)
+        if fn is None:
+            continue
+        defs = _single_defs(fn)
+        for b, t in fn.calls():
+            callee = t.get('callee') or ''
+            for suffix, ix, what in NAME_SINKS:
+                if not callee.endswith(suffix) or ix >= len(t['args']):
+                    continue
+                r = _name_root(facts, fn, defs, t['args'][ix], cache)
+                ok = r is not None and r[0] == 'param'
+                n += 1
+                rep.oblige('N9', '%s|%s' % (fn.name, suffix), ok=ok, nontrivial=True,
+                           sample={'fn': fn.name, 'at': fn.loc(t['span']), 'sink': suffix.strip(':'), 'origin': list(r) if r else None})
+                if not ok:
+                    rep.violation('N9', vkey('N9', fn.name, suffix, ''), fn.loc(t['span']),
+                                  'the name that %s in %s is not the name the caller passed (it is derived inside the function: `%s`), '
+                                  'so the existence check, the alias and the stored long name can be about different strings' %
+                                  (what, fn.name, t['span']['snip'][:70]))
+    # callers: the existence check and the write are about the same string
+    m = 0
+    for fn in facts.fns.values():
+        if fn.crate != 'fatfs':
+            continue
+        chk = [(b, t) for b, t in fn.calls() if (t.get('callee') or '') == CHECK_EXIST]
+        wr = [(b, t) for b, t in fn.calls() if (t.get('callee') or '') == WRITE_ENTRY]
+        if not chk or not wr:
+            continue
+        defs = _single_defs(fn)
+        roots_c = {_name_root(facts, fn, defs, t['args'][1], cache) for b, t in chk if len(t['args']) > 1}
+        for b, t in wr:
+            if len(t['args']) < 2:
+                continue
+            r = _name_root(facts, fn, defs, t['args'][1], cache)
+            if r is None or r[0] == 'const':
+                continue  # a literal name (the dot entries of a new directory)
+            ok = r in roots_c
+            m += 1
+            rep.oblige('N9.pair', '%s|bb%d' % (fn.name, b), ok=ok, nontrivial=True,
+                       sample={'fn': fn.name, 'at': fn.loc(t['span']), 'written': list(r) if r else None})
+            if not ok:
+                rep.violation('N9', vkey('N9', fn.name, 'pair', ''), fn.loc(t['span']),
+                              '%s checks one string for existence and writes an entry under another (`%s`)' %
+                              (fn.name, t['span']['snip'][:70]))
+    rep.counts['N9.sinks'] = n
+    rep.counts['N9.pairs'] = m
+
+
+_run_n9 = run
+
+
+def run(ctx, rep):
+    _run_n9(ctx, rep)
+    one_name(ctx, rep)
+
+
+# ---------------------------------------------------------------------------------------------
+# N5d  with Unicode folding the length of a name is not invariant under case conversion (`ß` -> `SS`): where two names are
+#      compared by their folded characters, no comparison of their raw lengths decides the answer
+
+def fold_length_shortcut(ctx, rep):
+    facts = ctx.facts
+    fold = facts.fns.get('fatfs::dir_entry::char_to_uppercase')
+    if fold is None:
+        return
+    expanding = any((t.get('callee') or '').endswith('::to_uppercase') for b, t in fold.calls())
+    if not expanding:
+        rep.counts['N5d.not-expanding'] = 1  # ASCII folding keeps the length: a length test is sound in this build
+        return
+    n = 0
+    for fn in facts.fns.values():
+        if fn.crate != 'fatfs':
+            continue
+        if not any((t.get('callee') or '').endswith('dir_entry::char_to_uppercase') for b, t in fn.calls()) and \
+                not any(tk == ('fnref', 'fatfs::dir_entry::char_to_uppercase') for l in Deps(fn).direct.values() for tk in l):
+            continue
+        n += 1
+        tag = unit_tags(fn)
+        bad = None
+        for bi in sorted(fn.reachable()):
+            for s in fn.blocks[bi]['stmts']:
+                if s['k'] != 'assign' or s['rv']['k'] != 'binop' or s['rv']['op'] not in ('Eq', 'Ne', 'Lt', 'Le', 'Gt', 'Ge'):
+                    continue
+                pa, pb = op_place(s['rv']['a']), op_place(s['rv']['b'])
+                if pa is None or pb is None or pa['p'] or pb['p']:
+                    continue
+                if tag.get(pa['l']) and tag.get(pb['l']):
+                    bad = s
+        rep.oblige('N5d', fn.name, ok=bad is None, nontrivial=True, sample={'fn': fn.name, 'rule': 'no raw-length comparison next to a folded comparison'})
+        if bad is not None:
+            rep.violation('N5d', vkey('N5d', fn.name, 'length-shortcut', ''), fn.loc(bad['span']),
+                          '%s compares names by their case-folded characters but also compares their raw lengths (`%s`): folding can '
+                          'change the length (`ß` folds to `SS`), so names that match after folding are rejected' %
+                          (fn.name, bad['span']['snip'][:70]))
+    rep.counts['N5d.fns'] = n
+
+
+_run_n5d = run
+
+
+def run(ctx, rep):
+    _run_n5d(ctx, rep)
+    fold_length_shortcut(ctx, rep)
